@@ -12,7 +12,7 @@ try:
     if b.returncode != 0:
         print("MUTANT DOES NOT BUILD", b.stderr[:500])
     else:
-        cmd = ['/verif/bin/gosmt', 'check', rest[0]]
+        cmd = ['/verif/bin/gosmt', 'check', rest[0], '--noevidence']
         if len(rest) > 1:
             cmd += ['--only', rest[1]]
         r = subprocess.run(cmd, cwd='/verif', capture_output=True, text=True)
